@@ -154,6 +154,17 @@ func mutateContainer(t *rapid.T, in []byte) []byte {
 		scaler = rapid.SampledFrom([]uint32{0x00010000, 0x4F54544F, 0x74727565, 0x74797031, 0}).Draw(t, "scaler")
 	}
 	out := refsfnt.Assemble(scaler, tables)
+	if n := int(out[4])<<8 | int(out[5]); n > 0 && len(out) >= 12+16*n && rapid.IntRange(0, 9).Draw(t, "wrapRecord") == 0 {
+		// one directory record whose offset + length passes 2^32: the sum
+		// wraps to a small value, so checks made on the wrapped end (inside
+		// the file, no overlap) pass while the declared length is enormous
+		r := rapid.IntRange(0, n-1).Draw(t, "wrapWhich")
+		length := rapid.SampledFrom([]uint32{0x08000030, 0x40000000, 0xC0000000, 0xFFFFFF00}).Draw(t, "wrapLength")
+		end := uint32(rapid.SampledFrom([]int{1, 4, 12 + 16*n, len(out) / 2, len(out)}).Draw(t, "wrapEnd"))
+		binary.BigEndian.PutUint32(out[12+16*r+8:], end-length) // offset = end - length (mod 2^32)
+		binary.BigEndian.PutUint32(out[12+16*r+12:], length)
+		stats.Label("font", "directory-record-wraps-2^32")
+	}
 	if rapid.IntRange(0, 3).Draw(t, "rawToo") == 0 {
 		out = mutateBytes(t, out)
 	}
@@ -414,6 +425,17 @@ func subrSeed(t *rapid.T) []byte {
 			spec.FDSelect = append(spec.FDSelect, cur)
 		}
 		stats.Label("cff", "seed:harness-written-cid")
+	}
+	if !spec.CID && rapid.IntRange(0, 3).Draw(t, "predefCharset") == 0 {
+		// predefined charsets name 229 (ISOAdobe), 166 (Expert) and 87
+		// (ExpertSubset) glyphs: glyph counts around and between these sizes
+		spec.PredefCharset = rapid.IntRange(0, 2).Draw(t, "charsetID")
+		nGlyphs = rapid.SampledFrom([]int{1, 86, 87, 88, 100, 165, 166, 167, 200, 228, 229, 230, 240}).Draw(t, "nGlyphsPredef")
+		stats.Label("cff", "seed:predefined-charset")
+		for i := nGlyphs - 3; i > 0; i-- {
+			spec.CharStrings = append(spec.CharStrings, []byte{14}) // endchar
+		}
+		nGlyphs = 3
 	}
 	for i := nGlyphs; i > 0; i-- {
 		spec.CharStrings = append(spec.CharStrings, body("glyph"))
